@@ -555,6 +555,15 @@ func calculateHashes(numLeaves uint64, delHashes []Hash, proof Proof) (hashAndPo
 	toProve := toHashAndPos(proof.Targets, delHashes)
 	toProveIdx := 0
 
+	// A position can only be proven once. With the targets sorted, duplicates are
+	// next to each other.
+	for i := 1; i < len(toProve.positions); i++ {
+		if toProve.positions[i-1] == toProve.positions[i] {
+			return hashAndPos{}, nil, fmt.Errorf("invalid proof. Target %d "+
+				"is given more than once", toProve.positions[i])
+		}
+	}
+
 	// Where all the root hashes that we've calculated will go to.
 	calculatedRootHashes := make([]Hash, 0, numRoots(numLeaves))
 
